@@ -48,7 +48,7 @@ def oracle_fail(R, case, detail, key=None):
     _ncorr[k] = _ncorr.get(k, 0) + 1
     R.hist['oracle_failure_class'][str(key)] += 1
     if _ncorr[k] <= 30:
-        oracle_fail(R, case, detail, key=key)
+        R.fail('oracle', case, detail, key=key)
 
 
 # ------------------------------------------------------------------ exact linear algebra
@@ -130,7 +130,15 @@ def mk_coords(spec):
 
 def mk_data(spec, shape, late=False):
     from glue.core import Data
-    if late:
+    if late == 2:
+        # the coordinate object is replaced: world attributes and links must follow the new one
+        n = len(shape)
+        other = ('aff', tuple(tuple(F(3 if i == n - 1 - j else (1 if i == j else 0)) for j in range(n)) for i in range(n)), tuple(F(5) for _ in range(n)))
+        if n == 1 or (spec[0] == 'aff' and other[1] == spec[1]):
+            other = ('id', n)
+        d = Data(x=np.zeros(shape), coords=mk_coords(other))
+        d.coords = mk_coords(spec)
+    elif late:
         d = Data(x=np.zeros(shape))
         d.coords = mk_coords(spec)
     else:
@@ -575,7 +583,7 @@ def stream_small(R):
             t = small_translation(rng, n)
             shape = tuple(rng.choice([1, 2, 3, 4]) for _ in range(n))
             spec = ('aff', tuple(tuple(F(x) for x in r) for r in M), t)
-            check_views(R, batch, spec, shape, views_for(rng, shape, kv), 'small', late=rng.random() < 0.2)
+            check_views(R, batch, spec, shape, views_for(rng, shape, kv), 'small', late=rng.choice([0, 0, 0, 0, 0, 0, 1, 2]))
             nd += 1
     for n in (1, 2, 3):
         for shape in ([(3,), (1,)], [(2, 3), (3, 1)], [(2, 3, 2)])[n - 1]:
@@ -618,7 +626,7 @@ def stream_random(R):
             spec = ('aff', random_structured(rng, n), small_translation(rng, n))
         shape = tuple(rng.choice([1, 2, 3, 4, 5]) for _ in range(n))
         views = [random_view(rng, shape) for _ in range(R.pick(5, 6))]
-        nf = check_views(R, batch, spec, shape, views, 'random', late=rng.random() < 0.3)
+        nf = check_views(R, batch, spec, shape, views, 'random', late=rng.choice([0, 0, 0, 0, 1, 1, 2, 2]))
         if i < 3:
             R.sample({'coords': spec_json(spec), 'shape': list(shape), 'views': views})
     batch.finish()
@@ -801,9 +809,10 @@ def shrink_failures(R):
                         break
             if improved:
                 continue
-            if case['view'] != ['tuple', []]:
+            full = ['tuple', [['s', None, None, None]]]     # (the empty tuple () is not used: _calculate indexes view[0])
+            if case['view'] != full:
                 kind, ents = case['view']
-                cands = [['tuple', []]]
+                cands = [full]
                 if kind == 'tuple':
                     for i in range(len(ents)):
                         if ents[i] != ['s', None, None, None]:
